@@ -10,7 +10,7 @@ import (
 	verif "github.com/uber/kraken/zzverif"
 )
 
-var verifAHosts = []string{"a:80", "b:80", "c:80"}
+var verifAHosts = []string{"a:80", "b:80", "c:80", "d:80"}
 
 // verifAChecker answers health checks from a table filled in by the harness
 // before every round (so the outcome does not depend on the schedule).
@@ -86,7 +86,7 @@ func verifActiveHistory(rounds int, rejoin bool) {
 	passes := verif.IntRange("passes", 1, 3)
 	ck := &verifAChecker{fail: map[string]bool{}, seen: map[string]int{}}
 	f := NewFilter(FilterConfig{Fails: fails, Passes: passes}, ck)
-	ghost := make([]verifAGhost, 3)
+	ghost := make([]verifAGhost, len(verifAHosts))
 	left := false
 	// host b: one outcome for the whole run (quick) or one per round (thorough)
 	bPerRound := verif.Bound("b_outcome_per_round", 0, 1) == 1
@@ -203,4 +203,50 @@ func VerifActiveRunSchedules() {
 	ck.mu.Lock()
 	verif.Assert("each-host-checked-once-per-round", ck.seen[verifAHosts[0]] == 2 && ck.seen[verifAHosts[1]] == 2)
 	ck.mu.Unlock()
+}
+
+// VerifActiveMembershipChanges: two hosts (a and d) come and go independently,
+// so the list can change without changing its size (one host replaced by
+// another), shrink, grow or stay; b and c are always listed and passing. Every
+// listed host must be reported according to the hysteresis, where a host that
+// was not in the previous list starts healthy.
+func VerifActiveMembershipChanges() {
+	verifASched()
+	maxT := verif.Bound("thresholds_membership", 2, 3)
+	fails := verif.IntRange("fails", 1, maxT)
+	passes := verif.IntRange("passes", 1, maxT)
+	ck := &verifAChecker{fail: map[string]bool{}, seen: map[string]int{}}
+	f := NewFilter(FilterConfig{Fails: fails, Passes: passes}, ck)
+	ghost := make([]verifAGhost, len(verifAHosts))
+	rounds := verif.Bound("rounds_membership", 3, 4)
+	prev := -1
+	for r := 0; r < rounds; r++ {
+		addrs := stringset.New(verifAHosts[1], verifAHosts[2])
+		m := verif.Choice("a_d_listed", 4) // bit 0: a listed, bit 1: d listed
+		for _, h := range []int{0, 3} {
+			listed := (h == 0 && m&1 != 0) || (h == 3 && m&2 != 0)
+			ck.fail[verifAHosts[h]] = false
+			if listed {
+				addrs.Add(verifAHosts[h])
+				ck.fail[verifAHosts[h]] = verif.Bool("check_fails")
+			}
+		}
+		ck.fail[verifAHosts[1]] = false
+		ck.fail[verifAHosts[2]] = false
+		if prev == 1 && m == 2 || prev == 2 && m == 1 {
+			verif.Reach("host-replaced-by-another-same-list-size")
+		}
+		prev = m
+
+		got := f.Run(addrs)
+
+		for h := range verifAHosts {
+			if !addrs.Has(verifAHosts[h]) {
+				ghost[h].leave()
+				continue
+			}
+			ghost[h].step(ck.fail[verifAHosts[h]], fails, passes)
+			verif.Assert("listed-host-reported-iff-healthy", got.Has(verifAHosts[h]) == ghost[h].healthy)
+		}
+	}
 }
